@@ -55,9 +55,10 @@ const (
 	FNilRequest
 	FFlushFail
 	FDialFail
+	FWriteDeadlineErr
 )
 
-var faultNames = [...]string{"none", "stall", "eof", "ioerr", "oversize", "write_error", "short_write", "cancel_before", "cancel_after_write", "cancel_at", "ctx_deadline", "not_connected", "nil_request", "flush_fail", "dial_fail"}
+var faultNames = [...]string{"none", "stall", "eof", "ioerr", "oversize", "write_error", "short_write", "cancel_before", "cancel_after_write", "cancel_at", "ctx_deadline", "not_connected", "nil_request", "flush_fail", "dial_fail", "write_deadline_rejected"}
 
 func (f FaultKind) String() string { return faultNames[f] }
 
@@ -117,20 +118,21 @@ func (h *recHooks) BeforeParse(b []byte) {
 }
 
 type C1Outcome struct {
-	Resp     packet.Response
-	Err      error
-	Returned bool
-	Elapsed  time.Duration
-	Start    time.Duration // simulated time at which Do was called
-	Rec      []IORec       // transport calls as the transport saw them
-	Consumed []byte        // bytes handed to the client by Read calls
-	Written  []byte
-	Hooks    []hookRec
-	Panic    *PanicRec
-	Hang     bool
-	OverStep bool
-	Flushes  int
-	ConnErr  error
+	Resp              packet.Response
+	Err               error
+	Returned          bool
+	Elapsed           time.Duration
+	Start             time.Duration // simulated time at which Do was called
+	Rec               []IORec       // transport calls as the transport saw them
+	Consumed          []byte        // bytes handed to the client by Read calls
+	Written           []byte
+	Hooks             []hookRec
+	Panic             *PanicRec
+	Hang              bool
+	OverStep          bool
+	Flushes           int
+	WDeadlineRejected int
+	ConnErr           error
 
 	Next     []*C1Outcome // outcomes of follow-up calls (C1.Then)
 	recFrom  int
@@ -231,6 +233,8 @@ func RunC1(rc *RunCtx, sc *C1) *C1Outcome {
 	case FShortWrite:
 		cl.WriteErr = fmt.Errorf("short write: %w", ErrSimIO)
 		cl.WriteErrN = 3
+	case FWriteDeadlineErr:
+		cl.WDeadlineErr = fmt.Errorf("set write deadline: %w", ErrSimIO) // what a connection that is already gone answers
 	}
 
 	var hooks *recHooks
@@ -389,6 +393,7 @@ func RunC1(rc *RunCtx, sc *C1) *C1Outcome {
 		}
 	}
 	fill(out, cl.Rec[:end])
+	out.WDeadlineRejected = cl.WDeadlineRejected
 	for i, o := range out.Next {
 		e := len(cl.Rec)
 		if i+1 < len(out.Next) {
